@@ -142,8 +142,22 @@ func main() {
 			addOp(plain(append(append([][]int{}, mixed...), hi, lo)...), true)
 		}
 	}
-	addOp(nil, true)                           // security: [] -> anonymous
-	addOp(plain([]int{3}, []int{4, 5}), false) // inherits the global requirement
+	// requirement *lists*: an alternative may be written more than once (it means the same as once),
+	// next to itself or around another one
+	for i, x := range allAlts {
+		addOp(plain(x, x), true)
+		for j, y := range allAlts[:4] {
+			if i != j && i < 5 {
+				addOp(plain(x, x, y), true)
+				addOp(plain(x, y, x), true)
+				addOp(plain(y, x, x), true)
+			}
+		}
+	}
+	addOp(nil, true) // security: [] -> anonymous
+	// the global requirement (written with a repeated alternative) is inherited by several operations:
+	// whatever reads that one list reads it once per operation
+	addOp(plain([]int{3}, []int{3}, []int{4, 5}), false)
 	// one operation per kind and mixed kinds
 	addOp(plain([]int{iBasic}), true)
 	addOp(plain([]int{iBearer}), true)
@@ -163,6 +177,8 @@ func main() {
 	addOp(plain([]int{0}), true)
 	addOp(plain([]int{1}), true)
 	addOp(plain([]int{2}), true)
+	addOp(plain([]int{3}, []int{3}, []int{4, 5}), false) // inherits the global requirement too
+	addOp(plain([]int{3}, []int{3}, []int{4, 5}), false) // and a third one
 	// ----- alternatives the generator cannot implement (openIdConnect, http digest, http negotiate; mutualTLS needs a 3.1 document) under
 	// ignore_not_implemented: such an alternative can never be satisfied; the others keep their
 	// meaning.  Scheme names are spelled the way specs spell them (snake case, so the Go type name
@@ -235,7 +251,7 @@ func main() {
 	addOp(plain([]int{iA, iM, iM + 2}, []int{iA, iZ}), true)
 	addOp(plain([]int{iA, iM + 1}, []int{iA, iM + 2}, []int{iZ, iA}), true)
 	spec := M{"openapi": "3.0.3", "info": M{"title": "t", "version": "1"}, "paths": paths,
-		"security":   []any{M{"S03": []any{}}, M{"S04": []any{}, "S05": []any{}}},
+		"security":   []any{M{"S03": []any{}}, M{"S03": []any{}}, M{"S04": []any{}, "S05": []any{}}},
 		"components": M{"securitySchemes": defs}}
 	// two generations of the same operations: as they are, and with one shared default response, which
 	// switches the generator to "convenient errors" (refusals are then written through NewError: another
